@@ -328,7 +328,7 @@ def main():
             # can thin it out in the quick tier (of every family of cases the first four and then every k-th)
             full = bool(undecided or pre_viol or a.tier == 'thorough')
             try:
-                grid_res = gridrun.run(pid, spec['grid'], a.repo, workdir, stride=1 if full else int(os.environ.get('VERIF_GRID_QUICK_STRIDE', str(spec['grid'].get('quick_stride', 1)))))
+                grid_res = gridrun.run(pid, spec['grid'], a.repo, workdir, stride=1 if full else int(os.environ.get('VERIF_GRID_QUICK_STRIDE', str(spec['grid'].get('quick_stride', 1)))), full=(a.tier == 'thorough'))
             except gridrun.Undecided as e:
                 grid_undecided = str(e)
     finally:
